@@ -9,7 +9,8 @@ RULE = ("table N for N in -1..40 (the 25 ids and the absent ones); tr: every id 
         "(exhaustive), every id x the 192-letter string of all codons, in upper, lower and mixed case; split: random A/C/G/T strings "
         "(length log-uniform 1..3000, random case) under every id, EVERY codon-boundary split point for lengths up to 300 (quick) / "
         "3000 (thorough) and 8 random split points beyond; case: random re-casing masks; tail: every partial tail of length 0..2; "
-        "the same under tables re-weighted (deep copy + OptimizeTable) from random coding sequences and under hand-written "
+        "lengths around block sizes (255..8194; to 262145 thorough); histories on one table instance (translate / re-weight in place / "
+        "swap two entries' letters in place); the same under tables re-weighted (deep copy + OptimizeTable) from random coding sequences and under hand-written "
         "text tables; the two error branches. Out of domain (correspondence only): strings with N/U/other ASCII letters, "
         "non-ASCII runes, tables listing a triplet twice. non-trivial = the string holds at least one complete codon; distinct by case text")
 EXHAUSTIVE = {"quick": True, "thorough": True}
@@ -71,6 +72,34 @@ def cases(seed, tier):
     # one long case per run with every split point
     s = randcase(r, randword(r, ACGT, 3000 if thorough else 900))
     yield ["split", "id:%d" % r.choice(IDS), s, "all"]
+    # --- lengths around typical block sizes (a windowed / chunked implementation must keep the frame across blocks)
+    edges = [255, 256, 257, 511, 512, 513] + list(range(1021, 1031)) + list(range(2045, 2053)) + [3071, 3072, 3073] + \
+            list(range(4093, 4100)) + [8190, 8191, 8192, 8193, 8194]
+    if thorough:
+        edges += [16383, 16384, 16385, 16386, 32767, 32768, 32769, 65535, 65536, 65537, 65538, 100000, 262145]
+    for L in edges:
+        s = randcase(r, randword(r, ACGT, L))
+        ks = sorted(set(k for k in [0, 1, 85, 86, 170, 171, 341, 342, 682, 683, 1365, 1366, L // 6, L // 3 - 1, L // 3] if 0 <= k <= L // 3))
+        yield ["split", "id:%d" % r.choice(IDS), s, ",".join(map(str, ks))]
+        yield ["case", "id:%d" % r.choice(IDS), s, randword(r, "ul", 3)]
+    # --- histories on one private table instance (re-weighted / re-lettered in place between translations)
+    for _ in range(12 if not thorough else 150):
+        steps = []
+        for _ in range(r.randint(3, 9)):
+            kind = r.choice("TTTWS")
+            if kind == "T":
+                steps.append("T:" + randcase(r, randword(r, ACGT, loglen(r, 1, 400))))
+            elif kind == "W":
+                steps.append("W:" + randword(r, ACGT, 3 * r.randint(1, 60)))
+            else:
+                steps.append("S:%d,%d" % (r.randrange(0, 64), r.randrange(0, 64)))
+        steps.append("T:" + "".join(CODONS))
+        yield ["hist", r.choice(["id:%d" % r.choice(IDS), "txt:" + small_table(r)])] + steps
+    # --- tables without start / stop lists (Translate only looks at the amino acids)
+    nostart = small_table(r).replace("ATG/TAA,TAG,TGA/", "//")
+    yield ["split", "txt:" + nostart, "atgGCTtaaGG", "all"]
+    yield ["tr", "txt:" + nostart.replace("//", "/TAA/"), "".join(CODONS)]
+    yield ["tr", "txt:" + nostart.replace("//", "ATG//"), "".join(CODONS)]
     # --- re-weighted tables (deep copy + OptimizeTable in the harness) and text tables
     for _ in range(30 if not thorough else 300):
         i = r.choice(IDS)
